@@ -1,8 +1,7 @@
 import OpusModel.Basic
 import OpusModel.RangeCoder
 import OpusModel.Framing
-import OpusModel.Gen.SilkIcdf
-import OpusModel.Gen.SilkSyms
+import OpusModel.SilkSymsFrozen
 /-
   OpusModel.SilkSyms — the *symbol layer* of the SILK decoder: which symbols are read from the range
   decoder, in which order, with which inverse-CDF tables, under which conditions (property C03,
@@ -28,10 +27,13 @@ import OpusModel.Gen.SilkSyms
   * `sym c tbl` is one `ec_dec_icdf(psRangeDec, tbl, 8)`.  A C expression `&table[off]` is
     `table.drop off` (no `take`: like the C code the scan runs until an entry stops it; that it stops
     inside the intended slice is a theorem about the regenerated tables, not an assumption).
+  * Tables: the model reads the FROZEN copy `OpusModel/SilkSymsFrozen.lean` of the inverse-CDF tables and
+    constants (the bit-stream format is normative, so the reference must not follow the tree);
+    `OpusProofs/SilkSymsFrozenEq.lean` proves the frozen copy equal to what is regenerated from /repo now.
   * Constants of silk/define.h are written as literals (TYPE_VOICED 2, CODE_CONDITIONALLY 2,
     MAX_NB_SUBFR 4, SHELL_CODEC_FRAME_LENGTH 16, SILK_MAX_PULSES 16, N_RATE_LEVELS 10,
     NLSF_QUANT_MAX_AMPLITUDE 4, FLAG_DECODE_NORMAL 0, FLAG_DECODE_LBRR 2 …); `constsOk` compares every
-    literal used here with the regenerated `Gen.SilkSyms` value and is discharged by `decide` in
+    literal used here with the frozen `SilkSymsFrozen.Consts` value and is discharged by `decide` in
     OpusProofs/SilkSymsTables.lean.
   * Every loop is structural recursion on a list or a counter.  The only C loop without a syntactic
     bound, `while( sum_pulses[i] == SILK_MAX_PULSES+1 )` (decode_pulses.c:72), is unrolled to its ten
@@ -42,7 +44,7 @@ import OpusModel.Gen.SilkSyms
   Core Lean only.
 -/
 namespace Opus.SilkSyms
-open Opus Opus.RangeCoder Opus.Gen.SilkIcdf
+open Opus Opus.RangeCoder Opus.SilkSymsFrozen.Icdf
 
 /-- One `ec_dec_icdf( psRangeDec, tbl, 8 )`: `(symbol, ctx)`. -/
 def sym (c : Dec) (tbl : List Nat) : Nat × Dec := decIcdf c tbl 8
@@ -414,7 +416,7 @@ structure StereoPred where
 /-- Dequantisation of one predictor (stereo_decode_pred.c:54-58).  `silk_SMULWB(a, b)` with
     `b = 6554` (fits `opus_int16`) is `(a * b) >> 16`; `silk_SMLABB(a, b, c)` is `a + b*c` for 16-bit `b`, `c`. -/
 def stereoDequant (q sub : Nat) : Int :=
-  let tab := Gen.SilkSyms.silk_stereo_pred_quant_Q13
+  let tab := SilkSymsFrozen.Consts.silk_stereo_pred_quant_Q13
   let low := tab.getD q 0
   let step := (tab.getD (q + 1) 0 - low) * 6554 / 65536
   low + step * (2 * (sub : Int) + 1)
@@ -892,16 +894,16 @@ def decodePacket (fs : Nat) (decodeFec prevModeCelt : Bool) (st : SilkSt) (pkt :
 /-- The literals used above agree with the regenerated constants of silk/define.h. -/
 def constsOk : Bool :=
   let g := 0
-  Gen.SilkSyms.TYPE_NO_VOICE_ACTIVITY == g && Gen.SilkSyms.TYPE_UNVOICED == 1 && Gen.SilkSyms.TYPE_VOICED == 2 &&
-  Gen.SilkSyms.CODE_INDEPENDENTLY == 0 && Gen.SilkSyms.CODE_INDEPENDENTLY_NO_LTP_SCALING == 1 &&
-  Gen.SilkSyms.CODE_CONDITIONALLY == 2 && Gen.SilkSyms.MAX_NB_SUBFR == 4 && Gen.SilkSyms.SUB_FRAME_LENGTH_MS == 5 &&
-  Gen.SilkSyms.MAX_FRAME_LENGTH == 320 && Gen.SilkSyms.MIN_LPC_ORDER == 10 && Gen.SilkSyms.MAX_LPC_ORDER == 16 &&
-  Gen.SilkSyms.SHELL_CODEC_FRAME_LENGTH == 16 && Gen.SilkSyms.LOG2_SHELL_CODEC_FRAME_LENGTH == 4 &&
-  Gen.SilkSyms.MAX_NB_SHELL_BLOCKS == 20 && Gen.SilkSyms.SILK_MAX_PULSES == 16 && Gen.SilkSyms.N_RATE_LEVELS == 10 &&
-  Gen.SilkSyms.NLSF_QUANT_MAX_AMPLITUDE == 4 && Gen.SilkSyms.FLAG_DECODE_NORMAL == 0 &&
-  Gen.SilkSyms.FLAG_PACKET_LOST == 1 && Gen.SilkSyms.FLAG_DECODE_LBRR == 2 &&
-  Gen.SilkSyms.MAX_FRAMES_PER_PACKET == 3 && Gen.SilkSyms.STEREO_QUANT_SUB_STEPS == 5 &&
-  Gen.SilkSyms.stereoStepQ16 == 6554 && Gen.SilkSyms.STEREO_QUANT_TAB_SIZE == 16 &&
+  SilkSymsFrozen.Consts.TYPE_NO_VOICE_ACTIVITY == g && SilkSymsFrozen.Consts.TYPE_UNVOICED == 1 && SilkSymsFrozen.Consts.TYPE_VOICED == 2 &&
+  SilkSymsFrozen.Consts.CODE_INDEPENDENTLY == 0 && SilkSymsFrozen.Consts.CODE_INDEPENDENTLY_NO_LTP_SCALING == 1 &&
+  SilkSymsFrozen.Consts.CODE_CONDITIONALLY == 2 && SilkSymsFrozen.Consts.MAX_NB_SUBFR == 4 && SilkSymsFrozen.Consts.SUB_FRAME_LENGTH_MS == 5 &&
+  SilkSymsFrozen.Consts.MAX_FRAME_LENGTH == 320 && SilkSymsFrozen.Consts.MIN_LPC_ORDER == 10 && SilkSymsFrozen.Consts.MAX_LPC_ORDER == 16 &&
+  SilkSymsFrozen.Consts.SHELL_CODEC_FRAME_LENGTH == 16 && SilkSymsFrozen.Consts.LOG2_SHELL_CODEC_FRAME_LENGTH == 4 &&
+  SilkSymsFrozen.Consts.MAX_NB_SHELL_BLOCKS == 20 && SilkSymsFrozen.Consts.SILK_MAX_PULSES == 16 && SilkSymsFrozen.Consts.N_RATE_LEVELS == 10 &&
+  SilkSymsFrozen.Consts.NLSF_QUANT_MAX_AMPLITUDE == 4 && SilkSymsFrozen.Consts.FLAG_DECODE_NORMAL == 0 &&
+  SilkSymsFrozen.Consts.FLAG_PACKET_LOST == 1 && SilkSymsFrozen.Consts.FLAG_DECODE_LBRR == 2 &&
+  SilkSymsFrozen.Consts.MAX_FRAMES_PER_PACKET == 3 && SilkSymsFrozen.Consts.STEREO_QUANT_SUB_STEPS == 5 &&
+  SilkSymsFrozen.Consts.stereoStepQ16 == 6554 && SilkSymsFrozen.Consts.STEREO_QUANT_TAB_SIZE == 16 &&
   SILK_MAX_PULSES == 16 && N_RATE_LEVELS == 10 && NLSF_QUANT_MAX_AMPLITUDE == 4
 
 end Opus.SilkSyms
